@@ -59,6 +59,10 @@ def main(payload):
             ref.append(run(sp))
         except Exception as ex:
             ref.append(None); out['errors'].append('%s: %s %s' % (sp['class'], type(ex).__name__, str(ex)[:80]))
+    out['ref'] = ref
+    if payload.get('ref_only'):
+        out['n'] = len(specs)
+        return out
     # pass 2: shuffled order, objects constructed up front (so every object lives through the others' calls),
     # globals poisoned before each call, every object called twice (second call after all others)
     order = list(range(len(specs))); rng.shuffle(order)
@@ -67,8 +71,23 @@ def main(payload):
         if ref[i] is None: continue
         try: objs[i] = build(specs[i])
         except Exception as ex: out['errors'].append('pass2 build %s: %s' % (specs[i]['class'], type(ex).__name__))
-    for rnd in range(2):
+    for rnd in range(3):
         rng.shuffle(order)
+        if rnd >= 0:
+            # before every round (also the first: the object's very first request is then a different one) every live object is used for OTHER requests: the same number of points at different places
+            # (a different grid of the same shape), reversed order, and a different time; the results are discarded
+            for i in order:
+                if i not in objs: continue
+                sp = specs[i]
+                try:
+                    pts = sp['pts']
+                    if pts and not isinstance(pts[0], (list, tuple)):
+                        lo, hi = min(pts), max(pts)
+                        other = [lo + (hi - lo) * (0.07 + 0.86 * ((k * 0.618 + 0.31 * rnd) % 1.0)) for k in range(len(pts))]
+                        run(dict(sp, pts=other, t=sp['t']), objs[i])
+                        run(dict(sp, pts=list(reversed(pts)), t=sp['t'] * (1.0 + 0.21 * rnd) if sp['t'] > 0 else sp['t'] * (1.0 - 0.13 * rnd)), objs[i])
+                except Exception:
+                    pass
         for i in order:
             if i not in objs: continue
             poison()
@@ -126,9 +145,51 @@ def specs(rng, tier):
             dict(module=E + 'nohblackboxeos.blackboxnoh', **{'class': 'SphericalNohBlackBox'}, params={}, eos=gam(), guess=[60.0, 0.5, 0.3], pts=P(0.05, 1.0), t=0.6),
             dict(module=E + 'nohblackboxeos.blackboxnoh', **{'class': 'PlanarNohBlackBox'}, params={}, eos=gam(), guess=[5.0, 0.5, 0.25], pts=P(0.05, 1.0), t=0.6),
         ]
+    # twins: for every class a second instance that shares some parameters with the first and differs in one (another geometry, or one
+    # numeric parameter changed) - a cache keyed on part of the parameters is then exercised with a colliding key
+    twins = []
+    seen_cls = set()
+    for sp in out:
+        key = sp['class']
+        if key in seen_cls:
+            continue
+        seen_cls.add(key)
+        PP = dict(sp['params'])
+        if 'geometry' in PP:
+            PP['geometry'] = {1: 2, 2: 3, 3: 2}[PP['geometry']]
+            twins.append(dict(sp, params=PP))
+    gg = 3.0          # eexp's root search takes minutes for gamma = 5/3; 0.3 s for 3.0
+    for geo in (2, 3):
+        twins.append(dict(module=E + 'guderley', **{'class': 'Guderley'}, params={'geometry': geo, 'gamma': gg, 'rho0': 1.0}, pts=P(0.2, 2.5, 4), t=-0.7))
+    out += twins
     rng.shuffle(out)
     return out
 
 
 def run(rng, tier):
-    return H.run_real(SCRIPT, {'seed': rng.randrange(10 ** 6), 'specs': specs(rng, tier)}, timeout=3000)
+    sp = specs(rng, tier)
+    r = H.run_real(SCRIPT, {'seed': rng.randrange(10 ** 6), 'specs': sp}, timeout=3000)
+    # the fresh evaluations of pass 1 themselves share one interpreter: a second process evaluates them in the reverse order, so a
+    # cache keyed on part of the parameters is filled by the other twin first; the two sets of "fresh" values must agree
+    r2 = H.run_real(SCRIPT, {'seed': 1, 'specs': list(reversed(sp)), 'ref_only': True}, timeout=3000)
+    a, b = r.get('ref', []), list(reversed(r2.get('ref', [])))
+    for spec, x, y in zip(sp, a, b):
+        if x is None or y is None:
+            continue
+        if x != y and not all(_same(x[k], y[k]) for k in x):
+            bad = [k for k in x if not _same(x[k], y.get(k, []))]
+            r['diffs'].append({'spec': spec, 'why': 'value depends on which other solvers were evaluated before it in the same process', 'fields': bad[:3],
+                               'first_order': {k: x[k][:3] for k in bad[:2]}, 'reverse_order': {k: y[k][:3] for k in bad[:2]}})
+    return r
+
+
+def _same(u, v):
+    if len(u) != len(v):
+        return False
+    for p_, q_ in zip(u, v):
+        if isinstance(p_, str) or isinstance(q_, str):
+            if p_ != q_:
+                return False
+        elif not (p_ == q_ or (p_ != p_ and q_ != q_)):
+            return False
+    return True
